@@ -53,6 +53,9 @@ def run_case(case, ctx):
                 nt=int(rng.integers(2, 6)), ties=bool(rng.random() < 0.3),
                 clusters=['same', 'curated'][int(rng.integers(0, 2))] if not sparse else 'same',
                 tnloc=int(rng.integers(2, 7)), ncdat_extra=0, exact_amps=bool(rng.random() < 0.35), interleave=bool(rng.random() < 0.4))
+    opts.update(dtype_amps=['float64', 'float32'][int(rng.integers(0, 2))],
+                dtype_templates=['float32', 'float32', 'float64'][int(rng.integers(0, 3))],
+                dtype_feat=['float32', 'float64'][int(rng.integers(0, 2))])
     spec = random_spec(rng, **opts)
     d = scratch_dir('c05_')
     desc = {'seed': case['seed'], 'opts': opts}
